@@ -55,7 +55,8 @@ impl<'a> Walk<'a> {
       for mem in &i.imported_members {
         self.id("import-member", mem, Some(n), Some(ml));
       }
-      self.add("import-module", i.imported_module_loc, Some(n), None);
+      let im = self.add("import-module", i.imported_module_loc, Some(n), None);
+      self.nodes[im].name = Some(i.imported_module.pretty_print(self.heap));
     }
     let tl = self.new_list();
     for t in &m.toplevels {
